@@ -196,7 +196,7 @@ CHECKS["C16"] = {
     "runs": [
         {"name": "run.mv.layout", "files": C16F, "fn": "VerifH_C16_layout", "workers": 16, "reach": ["accepted", "rejected", "end"]},
         {"name": "run.mv.layout.mpegts", "files": C16F, "fn": "VerifH_C16_layout", "workers": 16, "params": {"TSLAYOUT": 1}, "reach": ["accepted", "rejected", "end"]},
-        {"name": "run.mv.layout.h265", "files": C16F, "fn": "VerifH_C16_layout", "workers": 16, "params": {"VCODEC": 1}, "reach": ["accepted", "rejected", "end"]},
+        {"name": "run.mv.layout.h265", "files": C16F, "fn": "VerifH_C16_layout", "workers": 16, "params": {"VCODEC": 1, "H265SPS": 2}, "reach": ["accepted", "rejected", "end"]},
         {"name": "run.mv.layout.vp9", "files": C16F, "fn": "VerifH_C16_layout", "workers": 16, "params": {"VCODEC": 2}, "reach": ["accepted", "rejected", "end"]},
         {"name": "run.mv.layout.av1", "files": C16F, "fn": "VerifH_C16_layout", "workers": 16, "params": {"VCODEC": 3}, "reach": ["accepted", "rejected", "end"]},
         {"name": "lemma.codecs.av1", "files": [G + "c16_av1.go"] + C16F, "fn": "VerifH_C16_av1codecs", "workers": 16, "reach": ["marshalled", "end"]},
